@@ -24,7 +24,18 @@ INTERNAL = {
     "chaiscript::detail::exception::bad_any_cast": "engine: stored type differs",
     "chaiscript::exception::file_not_found_error": "engine: try next use path",
     "chaiscript::exception::load_module_error": "engine: try next module path",
-    "std::bad_cast": "base class of the engine's own cast errors (bad_boxed_cast, bad_any_cast); handlers that catch it are probing a cast",
+}
+# std::bad_cast is the base class of the engine's own cast errors (bad_boxed_cast, bad_any_cast) but also a standard exception that a registered
+# C++ function can throw (failed dynamic_cast<T &>).  Handlers for it are accepted only at these sites, where the try body is a cast / conversion
+# attempt and nothing else; anywhere else (a dispatch loop, a call node) such a handler would swallow or replace a user exception.
+BAD_CAST_SITES = {
+    "chaiscript::Type_Conversions::boxed_type_conversion": "conversion attempt: a conversion that fails with bad_cast is reported as bad_boxed_dynamic_cast",
+    "chaiscript::Type_Conversions::boxed_type_down_conversion": "conversion attempt, as boxed_type_conversion",
+    "chaiscript::boxed_cast": "cast attempt: failure of the fallback conversion is reported as bad_boxed_cast",
+    "chaiscript::dispatch::Param_Types::convert": "conversion attempt of one typed parameter: failure leaves the argument unconverted",
+    "chaiscript::dispatch::Param_Types::match": "cast probe of an argument already tested to hold a Dynamic_Object: failure means 'no match'",
+    "chaiscript::detail::Dispatch_Engine::is_type": "cast probe: failure means 'not of that type'",
+    "chaiscript::dispatch::detail::Dynamic_Object_Function::dynamic_object_typename_match": "cast probe, as Param_Types::match",
 }
 # conversions of engine errors that are part of the documented interface
 ALLOW = {
@@ -162,6 +173,9 @@ def run(chk):
                 elif (fq, ht) in ALLOW:
                     ok = True
                     r1.note("allow-listed %s -- %s" % (inst, ALLOW[(fq, ht)]))
+                elif ht == "std::bad_cast" and fq in BAD_CAST_SITES and cast_attempt_only(prog, f, n["body"]):
+                    ok = True
+                    r1.note("allow-listed %s -- %s" % (inst, BAD_CAST_SITES[fq]))
                 else:
                     acts = sorted({prog.T(f, x.get("tt")).replace("chaiscript::", "") for x in walk(hd["body"]) if x.get("k") == "throw" and not x.get("rethrow")})
                     why = ("an exception from user code (reached by the try body) is caught as %s and %s" % (
@@ -462,3 +476,15 @@ def try_paths(prog, f, hf):
     fl = ai.exec(f["body"], {(True, False, 0, 0, None), (False, False, 0, 0, None)})
     exits = [("normal", s) for s in (fl.returns | fl.normal)] + [("throw", s) for s in fl.throws]
     return {"exits": exits, "incomplete": ai.incomplete or incomplete[0], "handled_paths": handled[0]}
+
+
+def cast_attempt_only(prog, f, body):
+    """the try body calls nothing but cast / conversion primitives (and accessors): it is a cast attempt, not a call of a registered function"""
+    OK = {"boxed_cast", "boxed_type_conversion", "boxed_type_down_conversion", "convert", "convert_down", "get_conversion", "get_type_info", "bare_equal",
+          "get_type_name", "push_back", "emplace_back", "operator->", "operator*", "operator==", "operator!=", "operator||", "get", "cast", "bare_type_info",
+          "user_type", "operator[]", "size", "at", "empty", "move", "forward", "is_undef", "first", "second", "type_conversion", "saves", "operator bool",
+          "conversion_saves", "converts", "name", "bare_name", "operator=", "make_pair", "get_type", "operator basic_string_view"}
+    for n in walk(body):
+        if n.get("k") == "call" and n.get("name") not in OK:
+            return False
+    return True
